@@ -116,6 +116,16 @@ def Shadow.apply (env : Env α) (s : Shadow α) : Op α → Shadow α
       | _ => s)
   | .reopen r => { s with ro := r }
 
+/-- the descriptor an append call is to add -/
+def appendedDesc (env : Env α) : Op α → Option (Desc α)
+  | .appendSet l => some { body := .set (if l.isEmpty then none else some l) }
+  | .appendRange t l u => some { label := optArg l, unit := optArg u, body := .range t }
+  | .appendSampled si l u o => some { label := optArg l, unit := optArg u,
+                                      body := .sampled si (if Scalar.beq o Scalar.zero then none else some o) }
+  | .appendAlias => some { body := .alias }
+  | .appendFrame _ c => some { body := .frame (resolveCol env c) }
+  | _ => none
+
 /-- the bookkeeping after a call, given whether it was accepted; a read-only session changes nothing -/
 def Shadow.next (env : Env α) (s : Shadow α) (op : Op α) (accepted : Bool) : Shadow α :=
   match op with
